@@ -14,7 +14,7 @@ func (r *Router) proxy(w http.ResponseWriter, req *http.Request) {
 	r.Metrics.Increment(r.metricsNames.routerProxied)
 	r.Logger.Debug().Logf("proxying request for %s", req.URL.Path)
 	upstreamTarget := r.Config.GetHoneycombAPI()
-	forwarded := req.Header.Get("X-Forwarded-For")
+	forwarded := strings.Join(req.Header.Values("X-Forwarded-For"), ", ")
 	// let's copy the request over to a new one and
 	// dispatch it upstream
 	defer req.Body.Close()
